@@ -6,10 +6,15 @@
 #include "mp/nl-solver.hpp"
 #include "mp/nl-model.h"
 #include "mp/problem.h"
+extern "C" {
+#include "api/c/nl-model-c.h"
+#include "api/c/nl-solver-c.h"
+}
 #include <unistd.h>
 #include <fstream>
 #include <map>
 
+static std::string slurp(const std::string& p) { std::ifstream f(p, std::ios::binary); return std::string((std::istreambuf_iterator<char>(f)), std::istreambuf_iterator<char>()); }
 static std::vector<std::string> read_lines(const std::string& p) { std::vector<std::string> v; std::ifstream f(p); std::string l; while (std::getline(f, l)) v.push_back(l); return v; }
 
 // evaluator for the expression shapes an LP/QP objective can have (sum, *, constants, variables)
@@ -222,7 +227,60 @@ int main(int argc, char** argv) {
         }
       }
     }
-    vf::J j; j.i("case", c).i("n", g.n).i("m", g.m).s("qshape", g.qshape).i("qfmt", g.qfmt).b("text", text).b("names", g.names).i("nsuf", (long long)g.sufs.size()).i("events", events).s("detail", detail.substr(0, 500));
+    // (3) the C interface (nl-model-c / nl-solver-c) is a thin wrapper: the same model given through it must write the same files and
+    //     return the same solution as the C++ interface
+    bool c_api = false;
+    if (perm_ok && bad.empty()) {
+      c_api = true;
+      std::string stub2 = stub + "c";
+      for (const char* ext : {".nl", ".col", ".row", ".sol"}) unlink((stub2 + ext).c_str());
+      NLW2_NLModel_C cm = NLW2_MakeNLModel_C("verif_easy");
+      NLW2_SetCols_C(&cm, g.n, g.lb.data(), g.ub.data(), g.have_types ? g.type.data() : nullptr);
+      if (g.names) { NLW2_SetColNames_C(&cm, cnp.data()); if (g.m) NLW2_SetRowNames_C(&cm, rnp.data()); NLW2_SetObjName_C(&cm, g.objname.c_str()); }
+      NLW2_SetRows_C(&cm, g.m, g.rlb.data(), g.rub.data(), NLW2_MatrixFormatRowwise, g.aidx.size(), g.astart.data(), g.aidx.data(), g.aval.data());
+      NLW2_SetLinearObjective_C(&cm, g.sense ? NLW2_ObjSenseMaximize : NLW2_ObjSenseMinimize, g.c0, g.have_c ? g.c.data() : nullptr);
+      if (!g.qidx.empty()) NLW2_SetHessian_C(&cm, (NLW2_HessianFormat)g.qfmt, g.n, g.qidx.size(), g.qstart.data(), g.qidx.data(), g.qval.data());
+      if (!g.wx_i.empty()) NLW2_SetWarmstart_C(&cm, {(int)g.wx_i.size(), g.wx_i.data(), g.wx_v.data()});
+      if (!g.wy_i.empty()) NLW2_SetDualWarmstart_C(&cm, {(int)g.wy_i.size(), g.wy_i.data(), g.wy_v.data()});
+      for (auto& sf : g.sufs) { NLW2_NLSuffix_C sc{sf.name_.c_str(), sf.table_.c_str(), sf.kind_, (int)sf.values_.size(), sf.values_.data()}; NLW2_AddSuffix_C(&cm, sc); }
+      NLW2_NLSolver_C cs = NLW2_MakeNLSolver_C(nullptr);
+      NLW2_SetFileStub_C(&cs, stub2.c_str()); NLW2_SetNLOptions_C(&cs, opts);
+      if (!NLW2_LoadNLModel_C(&cs, &cm)) fail("c-api:LoadNLModel-failed", NLW2_GetErrorMessage_C(&cs));
+      else {
+        for (const char* ext : {".nl", ".col", ".row"}) {
+          std::string a = slurp(stub + ext), b = slurp(stub2 + ext);
+          if (a != b) { size_t q = 0; while (q < a.size() && q < b.size() && a[q] == b[q]) ++q;
+            size_t ls = a.rfind('\n', q ? q - 1 : 0); ls = ls == std::string::npos ? 0 : ls + 1;
+            std::string la = a.substr(ls, std::min<size_t>(60, a.size() - ls)), lb2 = b.substr(std::min(ls, b.size()), std::min<size_t>(60, b.size() - std::min(ls, b.size())));
+            for (auto* t : {&la, &lb2}) { size_t e = t->find('\n'); if (e != std::string::npos) t->resize(e); }
+            char seg = 0; for (size_t z = ls + 1; z-- > 0;) { if ((z == 0 || a[z - 1] == '\n') && z < a.size() && strchr("CLOVSdxrbkJG", a[z])) { seg = a[z]; break; } }
+            fail(std::string("c-api:written-file-differs-from-c++-interface:") + ext + (text && seg ? std::string(":segment-") + seg : ""), "first difference at byte " + std::to_string(q) + ": c++ '" + vf::jesc(la) + "' c '" + vf::jesc(lb2) + "'"); } }
+        double xs = 0; std::vector<double> xt(g.n); for (int j2 = 0; j2 < g.n; ++j2) xt[j2] = (j2 % 5) - 2 + 0.5 * (j2 % 3);
+        if (NLW2_ComputeObjValue_C(&cm, xt.data()) != mdl.ComputeObjValue(xt.data())) fail("c-api:ComputeObjValue-differs"); (void)xs;
+        std::string sb = slurp(stub + ".sol");
+        if (!sb.empty()) {
+          sg::write_file(stub2 + ".sol", sb);
+          mp::NLSolution s1 = solver.ReadSolution();       // same bytes through both interfaces
+          NLW2_NLSolution_C s2 = NLW2_ReadSolution_C(&cs);
+          if (s1.solve_result_ != s2.solve_result_) fail("c-api:solve-result-differs", std::to_string(s1.solve_result_) + " vs " + std::to_string(s2.solve_result_));
+          else if (s1.solve_result_ > -2) {
+            if ((int)s1.x_.size() != s2.n_primal_values_ || !std::equal(s1.x_.begin(), s1.x_.end(), s2.x_)) fail("c-api:primal-values-differ");
+            if ((int)s1.y_.size() != s2.n_dual_values_ || !std::equal(s1.y_.begin(), s1.y_.end(), s2.y_)) fail("c-api:dual-values-differ");
+            if (s1.solve_message_ != std::string(s2.solve_message_ ? s2.solve_message_ : "")) fail("c-api:solve-message-differs");
+            if ((int)s1.suffixes_.size() != s2.nsuf_) fail("c-api:number-of-solution-suffixes-differs", std::to_string(s1.suffixes_.size()) + " vs " + std::to_string(s2.nsuf_));
+            else for (int q = 0; q < s2.nsuf_; ++q) {
+              const NLW2_NLSuffix_C& cf = s2.suffixes_[q];
+              auto* rs = s1.suffixes_.Find(cf.name_ ? cf.name_ : "", cf.kind_);
+              if (!rs) { fail("c-api:solution-suffix-unknown-to-c++-interface", cf.name_ ? cf.name_ : "(null)"); continue; }
+              if ((int)rs->values_.size() != cf.numval_ || !std::equal(rs->values_.begin(), rs->values_.end(), cf.values_)) fail("c-api:solution-suffix-values-differ", cf.name_);
+            }
+          }
+        }
+      }
+      NLW2_DestroyNLSolver_C(&cs); NLW2_DestroyNLModel_C(&cm);
+      for (const char* ext : {".nl", ".col", ".row", ".sol"}) unlink((stub2 + ext).c_str());
+    }
+    vf::J j; j.i("case", c).b("c_api", c_api).i("n", g.n).i("m", g.m).s("qshape", g.qshape).i("qfmt", g.qfmt).b("text", text).b("names", g.names).i("nsuf", (long long)g.sufs.size()).i("events", events).s("detail", detail.substr(0, 500));
     std::sort(bad.begin(), bad.end()); bad.erase(std::unique(bad.begin(), bad.end()), bad.end());
     std::string bl = "["; for (size_t i = 0; i < bad.size(); ++i) { if (i) bl += ","; bl += "\"" + vf::jesc(bad[i]) + "\""; } bl += "]";
     j.raw("bad", bl);
